@@ -254,8 +254,57 @@ func specRaw(data []byte, start, size int, be bool) uint64 {
 	return v
 }
 
+// probe runs a scripted scenario for a KNOWN finding on the real code only (oracle line):
+// the defect regions the generator and the theorems exclude are exhibited here on every run,
+// so that the check prints its KNOWN-FINDING line from an actual reproduction.
+func (e *plExec) probe(id string) string {
+	switch id {
+	case "D74":
+		// two signals of one layout reference the same enum; the enum grows: the followers are
+		// moved per referencing signal in map order, a wrong order leaves an overlap
+		for i := 0; i < 60; i++ {
+			en := acmelib.NewSignalEnum("e")
+			en.AddValue(acmelib.NewSignalEnumValue("x", 1))
+			a, _ := acmelib.NewEnumSignal("a", en)
+			b, _ := acmelib.NewEnumSignal("b", en)
+			t, _ := acmelib.NewIntegerSignalType("t", 4, false)
+			c, _ := acmelib.NewStandardSignal("c", t)
+			m := acmelib.NewMessage("m", 1, 1)
+			m.AppendSignal(a)
+			m.AppendSignal(b)
+			m.AppendSignal(c)
+			if err := en.AddValue(acmelib.NewSignalEnumValue("y", 2)); err != nil {
+				continue
+			}
+			prevEnd := 0
+			for _, s := range m.Signals() {
+				if s.GetRelativeStartPos() < prevEnd {
+					e.fail("C01", "enum-two-refs-one-layout", sprintf("probe D74 (run %d): after AddValue(index 2) on an enum referenced by a@0 and b@1 of one message: %s starts at %d before %d", i, s.Name(), s.GetRelativeStartPos(), prevEnd))
+					return "reproduced"
+				}
+				prevEnd = s.GetRelativeStartPos() + s.GetSize()
+			}
+		}
+		return "not-reproduced"
+	case "D25":
+		// no "already has a parent" check: a signal appended to a second message is listed by both
+		t, _ := acmelib.NewIntegerSignalType("t", 4, false)
+		s, _ := acmelib.NewStandardSignal("s", t)
+		m1 := acmelib.NewMessage("m1", 1, 1)
+		m2 := acmelib.NewMessage("m2", 2, 1)
+		m1.AppendSignal(s)
+		if err := m2.AppendSignal(s); err == nil && len(m1.Signals()) == 1 && len(m2.Signals()) == 1 {
+			e.fail("C05", "reattached-signal-listed-twice", "probe D25: a signal appended to m1 and then to m2 is accepted and listed by both; ParentMessage() reports only m2")
+			return "reproduced"
+		}
+		return "not-reproduced"
+	}
+	return "unknown-probe"
+}
+
 func (e *plExec) Do(line string) string {
 	defer func() { e.nline++ }()
+	line = strings.TrimPrefix(line, "oracle ")
 	f := fields(line)
 	if len(f) < 2 {
 		return "bad-op"
@@ -263,6 +312,8 @@ func (e *plExec) Do(line string) string {
 	cmd := f[1]
 	a := f[2:]
 	switch cmd {
+	case "probe":
+		return e.probe(a[0])
 	case "dump":
 		m := e.msgs[atoi(a[0])]
 		if m == nil {
